@@ -78,7 +78,7 @@ fn set_menu(m: &[u64]) {
 
 fn kb() -> suiron::KnowledgeBase {
     let mut kb = suiron::KnowledgeBase::new();
-    for r in ["q(a).", "q(b).", "q(c).", "p($X) :- q($X).", "r(1).", "r(2).", "s($X) :- r($X)."] {
+    for r in ["q(a).", "q(b).", "q(c).", "p($X) :- q($X).", "r(1).", "r(2).", "s($X) :- r($X).", "n($X) :- not(p(c)), $X = oops."] {
         suiron::add_rules(&mut kb, vec![suiron::parse_rule(r).unwrap()]);
     }
     kb
@@ -295,6 +295,84 @@ fn scenario(name: &str) {
                 violation("C22", "S9:session-after-timeout-differs", format!("after a solve that returned {:?}, a fresh solve_all returned {:?} but alone it returns {:?}", r1, r2, s_answers));
             }
             outcome(format!("S9 -> {:?} then {:?}", r1, r2));
+        }
+        // a timed-out session, then a *ground* query built with parse_query and run with next_solution
+        "S5b" => {
+            let sn = node("p($Z)", &kb);
+            set_menu(&[0, 1500]);
+            let t0 = clock::now();
+            let r1 = suiron::solve_all(Rc::clone(&sn));
+            let t1 = clock::now();
+            set_menu(&[0]);
+            judge_solve_all("S5ba", &r1, &p_answers, t0, t1, true);
+            clock::advance_by(300);
+            let q = suiron::parse_query("s(1)").unwrap();
+            let qrc = Rc::new(q);
+            let sn2 = suiron::make_base_node(Rc::clone(&qrc), &kb);
+            let mut got = vec![];
+            for _ in 0..3 {
+                match suiron::next_solution(Rc::clone(&sn2)) {
+                    Some(ss) => got.push(format!("{}", qrc.replace_variables(&ss))),
+                    None => break,
+                }
+            }
+            if got != vec!["s(1)".to_string()] {
+                violation("C22", "S5b:ground-query-after-timeout", format!("after a session that returned {:?}, the ground query s(1) returned {:?} instead of [s(1)]", r1, got));
+            }
+            outcome(format!("S5b -> {:?} then {:?}", r1, got));
+        }
+        // a fast session whose timer may be left armed, idle time, then a next_solution session during which time passes
+        "S10" => {
+            set_menu(&[0]);
+            let sn = node("p($Z)", &kb);
+            let t0 = clock::now();
+            let r1 = suiron::solve_all(Rc::clone(&sn));
+            judge_solve_all("S10a", &r1, &p_answers, t0, clock::now(), false);
+            clock::advance_by(950);
+            let q = suiron::parse_query("s($W)").unwrap();
+            let qrc = Rc::new(q);
+            let sn2 = suiron::make_base_node(Rc::clone(&qrc), &kb);
+            set_menu(&[0, 100]);
+            let mut got = vec![];
+            for _ in 0..4 {
+                match suiron::next_solution(Rc::clone(&sn2)) {
+                    Some(ss) => got.push(format!("{}", qrc.replace_variables(&ss))),
+                    None => break,
+                }
+            }
+            set_menu(&[0]);
+            if got != vec!["s(1)".to_string(), "s(2)".to_string()] {
+                violation("C22", "S10:next-solution-session-differs", format!("after a fast session and 950 ms of idle time, a next_solution query returned {:?} instead of [s(1), s(2)]", got));
+            }
+            outcome(format!("S10 -> {:?} then {:?}", r1, got));
+        }
+        // a search that is cut short by the deadline inside not(...): solve must not
+        // report the answer that the truncated search makes up
+        "S11" => {
+            let sn = node("n($Z)", &kb);
+            set_menu(&[0, 1500]);
+            let t0 = clock::now();
+            let r = suiron::solve(Rc::clone(&sn));
+            let t1 = clock::now();
+            set_menu(&[0]);
+            if r == TIMEOUT_MSG {
+                if t1 < t0 + LIMIT_MS {
+                    violation("C23", "S11:timeout-although-within-limit", format!("solve reported a timeout; it ran from t={} to t={}", t0, t1));
+                }
+            } else if r != "No more." {
+                violation("C23", "S11:wrong-answer", format!("n($Z) has no answers, but solve returned {:?} (search from t={} to t={})", r, t0, t1));
+            }
+            outcome(format!("S11 -> {:?}", r));
+        }
+        "S12" => {
+            let sn = node("n($Z)", &kb);
+            set_menu(&[0, 1500]);
+            let t0 = clock::now();
+            let r = suiron::solve_all(Rc::clone(&sn));
+            let t1 = clock::now();
+            set_menu(&[0]);
+            judge_solve_all("S12", &r, &[], t0, t1, true);
+            outcome(format!("S12 -> {:?}", r));
         }
         _ => panic!("unknown scenario {}", name),
     }
